@@ -72,7 +72,26 @@ def gen_case(seed, idx):
         "second_close_after": rng.choice([5, 100, 600000]), "tail": rng.choice([20000, 7200000, 14400000]),
         # the default configuration has a dedicated listen socket besides the respond socket (unicast=True has not)
         "listen_socket": rng.random() < 0.6,
+        # services on one `server` name with the same / different / nested address sets, or each on its own server
+        "addr_mode": rng.choice(["same", "same", "different", "different", "superset", "mixed-family"]),
+        "server_mode": rng.choice(["shared", "shared", "shared", "distinct"]),
     }
+
+
+def rec_key(r):
+    """identity of a record without TTL, creation time and cache-flush bit"""
+    tok = C.rec_line(r, created=0).split()
+    return " ".join(tok[:4] + tok[7:])
+
+
+def withdrawn_keys(data):
+    """identities of the records carried with TTL 0 by a response datagram"""
+    from zeroconf import DNSIncoming
+
+    m = DNSIncoming(data)
+    if not m.valid or m.is_query():
+        return set()
+    return {rec_key(r) for r in m.answers() if int(r.ttl) == 0}
 
 
 def ptr_ttls(data):
@@ -92,7 +111,7 @@ def ptr_ttls(data):
 def simulate(case, close_at, want_blocks=True):
     """close_at: None (dry run: no close, returns block times) or ms after the scenario start"""
     from . import vsim
-    from zeroconf import DNSOutgoing, DNSQuestion, ServiceInfo, ServiceListener, ServiceStateChange, const
+    from zeroconf import DNSOutgoing, DNSQuestion, IPVersion, ServiceInfo, ServiceListener, ServiceStateChange, const
     from zeroconf.asyncio import AsyncServiceBrowser, AsyncServiceInfo, AsyncZeroconf
 
     sim = vsim.Sim(seed=case["seed"] * 100003 + case["idx"], maxdelay=case["maxdelay"], loopback=True, log_blocks=True)
@@ -113,7 +132,10 @@ def simulate(case, close_at, want_blocks=True):
             return None
         eng = za.engine
         t = eng._cleanup_timer
-        return [bool(za.done), bool(all(t.closed for t in src["a"].transports)), bool(t is not None and not t.cancelled())]
+        a_ = src["a"]
+        rx = a_.ltransport if a_.ltransport is not None else a_.transport   # where Host.deliver hands datagrams in
+        return [bool(za.done), bool(all(x.closed for x in a_.transports)), bool(t is not None and not t.cancelled()),
+                bool(rx is None or rx.closed)]
 
     orig_block = sim.block
 
@@ -166,7 +188,19 @@ def simulate(case, close_at, want_blocks=True):
 
         sim.net.on_send = on_send
         watched["registry"] = za.registry
-        infos = [ServiceInfo(TA, "s%d.%s" % (i + 1, TA), 80 + i, addresses=[socket.inet_aton("10.0.0.1")], server="ha.local.") for i in range(3)]
+        def addrs_of(i):
+            mode = case.get("addr_mode", "same")
+            base = socket.inet_aton("10.0.0.1")
+            if mode == "different":
+                return [socket.inet_aton("10.0.%d.1" % i)]
+            if mode == "superset":
+                return [base] + [socket.inet_aton("10.0.%d.1" % k) for k in range(1, i + 1)]
+            if mode == "mixed-family":
+                return [base] if i == 0 else [socket.inet_pton(socket.AF_INET6, "fe80::%d" % i)]
+            return [base]
+
+        infos = [ServiceInfo(TA, "s%d.%s" % (i + 1, TA), 80 + i, addresses=addrs_of(i),
+                             server="ha.local." if case.get("server_mode", "shared") == "shared" else "h%d.local." % i) for i in range(3)]
         infob = ServiceInfo(TB, "sb." + TB, 90, addresses=[socket.inet_aton("10.0.0.2")], server="hb.local.")
         bg = []
 
@@ -185,7 +219,10 @@ def simulate(case, close_at, want_blocks=True):
             elif op == "unregister":
                 bg.append(asyncio.ensure_future(guarded("unregister", aza.async_unregister_service(infos[act["i"]]))))
             elif op == "update":
-                infos[act["i"]].port += 1000
+                # a changed service is a new ServiceInfo handed to update (mutating the registered object in place leaves
+                # its cached records stale: not what is being tested here)
+                old = infos[act["i"]]
+                infos[act["i"]] = ServiceInfo(TA, old.name, old.port + 1000, addresses=old.addresses_by_version(IPVersion.All), server=old.server)
                 bg.append(asyncio.ensure_future(guarded("update", aza.async_update_service(infos[act["i"]]))))
             elif op == "browse-tracked":
                 bg.append(asyncio.ensure_future(guarded("browse", aza.async_add_service_listener(act["type"], L("t%d" % len(bg))))))
@@ -244,6 +281,9 @@ def simulate(case, close_at, want_blocks=True):
         obs["marks"]["close_called"] = sim.now()
         stask.cancel()   # API calls after the close are the caller's business, not "in progress" work
         obs["registry_at_close"] = sorted(i.name for i in za.registry.async_get_service_infos())
+        # every record a registered service stands for, at the moment close is called
+        obs["records_at_close"] = {i.name: sorted({rec_key(r) for r in [i.dns_pointer(), i.dns_service(), i.dns_text()] + list(i.get_address_and_nsec_records())})
+                                   for i in za.registry.async_get_service_infos()}
         tracked_at_close = list(aza.async_browsers.values())
         late = None
         if case["late_action"]:
@@ -368,6 +408,22 @@ def evaluate(res, case, obs):
                         "service %s (registered %s the close) was last multicast with TTL %d at %d ms before close returned and never withdrawn" % (n, when, l[1], tr - l[0])))
         elif l[0] < mk["close_called"]:
             bad.append(("C17:registered-%s-close-no-goodbye-in-close" % when, "service %s: last goodbye predates the close" % n))
+    # "withdrawn with goodbyes": every record (PTR, SRV, TXT, each address, NSEC) of every service registered when close
+    # was called is carried with TTL 0 by a datagram transmitted between the call and the return
+    gone = set()
+    for s in obs["sends"][:mk["n_sends_at_return"]]:
+        if s[1] == MDNS and s[0] >= mk["close_called"]:
+            gone |= withdrawn_keys(bytes.fromhex(s[3]))
+    for n, keys in sorted(obs.get("records_at_close", {}).items()):
+        # SRV and TXT are unique records (one per name): a TTL-0 record of that name and type withdraws the rrset even if
+        # an update racing the close changed its rdata; PTR, addresses and NSEC are compared with their rdata
+        gone_nt = {" ".join(k.split()[:3]) for k in gone}
+        missing = [k for k in keys if k not in gone and not (k.split()[0] in ("s", "t") and " ".join(k.split()[:3]) in gone_nt)]
+        if missing and len(missing) < len(keys):   # (nothing at all withdrawn is reported above)
+            kinds = sorted({k.split()[0] + "/" + k.split()[2] for k in missing})
+            bad.append(("C17:registered-service-record-not-withdrawn",
+                        "service %s was registered when close was called; its records %s (%d of %d) were never sent with TTL 0 before the transports closed"
+                        % (n, kinds, len(missing), len(keys))))
     return bad
 
 
@@ -395,7 +451,7 @@ def block_lines(case, obs):
         ncb = sum(1 for o in e["out"] if "callback" in o)
         after = idx >= mk["n_events_at_return"]
         f = e["flags"]
-        ops.append("%s %s %s %s %s %d %d" % (k, C.b01(f[0]), C.b01(f[1]), C.b01(f[2]), C.b01(after), nsend, ncb))
+        ops.append("%s %s %s %s %s %s %d %d" % (k, C.b01(f[0]), C.b01(f[1]), C.b01(f[3]), C.b01(f[2]), C.b01(after), nsend, ncb))
         info.append((e["t"], kind, nsend, ncb, after))
     return (["c17run %d %s" % (len(ops), " ".join(ops))] if ops else []), info
 
@@ -487,7 +543,7 @@ def run(ctx):
     for name, body in C.load_corpus("C17"):
         run_case(res, body["case"], ctx, acc)
         res.count("corpus")
-    n = C.Budget(ctx["tier"], 220, 4000).n
+    n = C.Budget(ctx["tier"], 150, 4000).n
     if ctx["widened"]:
         n *= 4
     for idx in range(n):
